@@ -41,6 +41,8 @@ def main():
         try:
             dd = demo_dir(demo, patch)
             mod, quick, slow = suite(dd)
+            if os.environ.get("CONFIRM_FAST"):
+                slow = None  # ./test_grpc (fixed TCP port, ~40 s) was run by the sub-agent that produced the change; not repeated here
             dst = os.path.join(d, dd, "zz_seeded_demo_test.go")
             shutil.copy(src + "/demo_test.go", dst)
             rel = "./" + os.path.relpath(os.path.join(d, dd), os.path.join(d, mod))
